@@ -38,6 +38,9 @@ type c12fsm struct {
 	tsids   map[core.TractserverID]int
 	owner   map[core.PartitionID]core.CuratorID
 	cidList []core.CuratorID
+	snapObj raft.Snapshoter // what FSM.Snapshot() returned at log index snapIdx; Save() is called later
+	snapIdx int
+	snapRO  bool
 	f7      bool // a snapshot was installed onto a read-only live replica while the snapshot was not read-only
 	nviol   int
 }
@@ -211,6 +214,38 @@ func (f *c12fsm) install(j int) {
 	f.tr.Obs(f.dumpRep(j)...)
 }
 
+// snapTake is raft calling FSM.Snapshot() on the leader (on the FSM goroutine, between two Apply calls).
+func (f *c12fsm) snapTake() {
+	if f.snapObj != nil {
+		f.snapObj.Release()
+	}
+	f.snapObj, _ = f.reps[f.leader].h.Snapshot()
+	f.snapIdx = len(f.log)
+	f.snapRO = f.reps[f.leader].h.state.ReadOnly
+	f.tr.Op(13)
+	f.tr.Obs(int64(f.snapIdx))
+	vw.Stat("fsm.snap.take", 1)
+}
+
+// snapInstall is raft's snapshot goroutine calling Snapshoter.Save() only NOW (commands may have been applied
+// since Snapshot()), and replica j - not ahead of the snapshot - restoring the file onto its live state; the log is
+// replayed from the snapshot's index afterwards.
+func (f *c12fsm) snapInstall(j int) {
+	if f.snapObj != nil && j != f.leader && f.reps[j].applied <= f.snapIdx {
+		var buf bytes.Buffer
+		f.snapObj.Save(&buf)
+		if f.reps[j].h.state.ReadOnly && !f.snapRO {
+			f.f7 = true
+			vw.Stat("fsm.install.onto-readonly", 1)
+		}
+		vw.Stat(fmt.Sprintf("fsm.snap.install.gap=%d", len(f.log)-f.snapIdx), 1)
+		f.reps[j].h.SnapshotRestore(bytes.NewReader(buf.Bytes()), uint64(f.snapIdx), 1)
+		f.reps[j].applied = f.snapIdx
+	}
+	f.tr.Op(14, int64(j))
+	f.tr.Obs(f.dumpRep(j)...)
+}
+
 func (f *c12fsm) restart(j int) {
 	f.reps[j] = &c12rep{h: c12fresh()}
 	f.tr.Op(4, int64(j))
@@ -323,6 +358,32 @@ func TestVerifC12FSM(t *testing.T) {
 				}
 			}
 		}
+		if !directed && r.Chance(1, 4) {
+			// Snapshot() at index j, more commands, THEN Save(); a (restarted or lagging) replica restores it,
+			// replays the tail and takes over
+			for i := r.Range(0, 4); i > 0; i-- {
+				f.command(r.PickInt(1, 1, 2, 3), f.someCurator())
+			}
+			j := f.pickFollower()
+			if r.Chance(1, 2) {
+				f.catchup(j, r.Range(0, len(f.log)))
+			}
+			f.snapTake()
+			for i := r.Range(0, 4); i > 0; i-- {
+				f.command(r.PickInt(1, 2, 3, 3), f.someCurator())
+			}
+			if r.Chance(1, 2) {
+				f.restart(j)
+			}
+			f.snapInstall(j)
+			if r.Chance(2, 3) {
+				f.catchup(j, r.Range(0, 3))
+				f.newLeader(j)
+				for i := r.Range(1, 3); i > 0; i-- {
+					f.command(r.PickInt(1, 2, 3, 3), f.someCurator())
+				}
+			}
+		}
 		for o := 0; o < nops; o++ {
 			switch k := r.Intn(100); {
 			case k < 18:
@@ -345,9 +406,13 @@ func TestVerifC12FSM(t *testing.T) {
 				f.restart(f.pickFollower())
 			case k < 88:
 				f.newLeader(r.Intn(3))
-			case k < 92:
+			case k < 91:
 				f.failover()
-			case k < 97:
+			case k < 94:
+				f.snapTake()
+			case k < 96:
+				f.snapInstall(f.pickFollower())
+			case k < 98:
 				f.lookup(int64(r.Range(0, len(f.owner)+2)))
 			default:
 				f.dump()
